@@ -310,7 +310,13 @@ def check_property(prop, tier, seed, jobs, keep=False, only_units=None, only_har
         if only_units:
             vsel = [u for u in vsel if u.name in only_units]
         with cf.ThreadPoolExecutor(max_workers=max(1, min(jobs, 8))) as ex:
-            for outs, info in ex.map(lambda u: run_verus_unit(u, scratch, tier), vsel):
+            for u, (outs, info) in zip(vsel, ex.map(lambda u: run_verus_unit(u, scratch, tier), vsel)):
+                rx = u.meta.get('only', {}).get(prop)
+                if rx:
+                    # the unit serves this property with part of its functions only: the rest is decided under the
+                    # properties the unit lists without a filter and is neither counted nor reported here
+                    info['only_filter'] = rx
+                    outs = [o for o in outs if o.status == 'undecided' or re.search(rx, o.oblig)]
                 outcomes += outs
                 vinfo[info['unit']] = info
         ksel = [u for u in kunits.values() if any(prop in h.props for h in u.harnesses)]
